@@ -66,7 +66,8 @@ pub fn content(e: usize, id: u32, sz: usize) -> Vec<u8> {
             0 => (id & 0xff) as u8,
             1 => ((id >> 8) & 0xff) as u8,
             _ => {
-                if id % 2 == 0 {
+                // even sizes: highly compressible filler, odd sizes: incompressible filler
+                if sz % 2 == 0 {
                     (e as u8) * 3
                 } else {
                     x ^= x << 13;
@@ -119,7 +120,9 @@ impl Cb {
                 [0; 4]
             }
         } else {
-            self.token
+            // successive good draws differ in the last byte: a token that is drawn again shows
+            let k = (self.draws - self.bad_draws.min(self.draws)) as u8;
+            [self.token[0], self.token[1], self.token[2], self.token[3].wrapping_add(k)]
         };
         self.draws += 1;
         for (i, b) in buffer.iter_mut().enumerate() {
